@@ -113,7 +113,8 @@ def generate(rng, tier):
         elif k == "spike_clip":
             op = {"op": "spike_clip", "ns": rng.choice([1.0, 1.5, 2.0, 3, 3.0])}
         elif k == "latcal":
-            op = {"op": "latcal", "p": rng.choice([2.0, 0.5, 3, round(10 ** rng.uniform(-3, 3), 4) or 1.0])}
+            op = {"op": "latcal", "p": rng.choice([2.0, 0.5, 3, round(10 ** rng.uniform(-3, 3), 4) or 1.0,
+                                                   -0.5, -2.0])}          # (a negative scale mirrors the axes: spacing -|p|)
         elif k == "filter":
             typ = rng.choice(["lp", "hp", "bp", "br", "lowpass", "highpass"])
             if typ in ("bp", "br"):
@@ -352,6 +353,7 @@ def execute(plan):
                         try:
                             if what == "plot2d":
                                 ifg.plot2d()
+                                ifg.plot2d(log=True)
                             else:
                                 sl = ifg.slices()
                                 sl.plot("x", invert_x=True)
